@@ -58,10 +58,13 @@ CHECKS = {
              "no bound on nesting/length): conforms (s % v) w -> conforms s w, by nested induction over the schema "
              "(scalars, typed lists, the four element-list forms incl. every contains-window, partial dicts, relaxed "
              "dicts, any-filtering, alias, custom); subst_narrows_verdict_closed (the same on validator verdicts with no "
-             "hypothesis about the result: its well-formedness is proved, subst_result_wf). Tie: per-run comparison of the real substitute's resulting schema "
+             "hypothesis about the result: its well-formedness is proved, subst_result_wf); subst_chain_narrows / subst_chain_narrows_intermediate (chains "
+             "((S % v1) % v2) ... % vn of ANY length: the final schema is well-formed and refines S and every intermediate "
+             "schema, induction over the list of values). Tie: per-run comparison of the real substitute's resulting schema "
              "/ exception class with the model; oracle on /repo: for every successful S % v, third values w "
              "(generated from S % v under min/max/random tapes, perturbations, values conforming to S) accepted by "
-             "S % v must be accepted by S.",
+             "S % v must be accepted by S; second values are substituted into a third of the successful results and "
+             "(S % v) % v2 must refine S % v and S, the second step being compared with the model as well.",
         note=COMMON_NOTE + "A genuine defect found by this check (float tolerance drift, F26) was repaired by a fix: "
              "commit; the model mirrors the repaired code.",
         technique="Coq proof (nested induction over schemas, window/partial-dict lemmas) + vm_compute correspondence + direct oracle",
